@@ -56,6 +56,9 @@ pub fn case(ctx: &Ctx, env: &RealEnv, dir: &std::path::Path, case: u64, seed: u6
     if case % 12 == 7 {
         return sigint_case(ctx, env, dir, case, &mut rng, rep);
     }
+    if case % 12 == 3 {
+        return super::real_gated::c16_interrupt_case(ctx, env, dir, case, seed, rep);
+    }
     if case % 4 == 1 {
         // the same clause with n2 writing to a terminal (a different display implementation)
         return super::real_gated::c16_pty_case(ctx, env, dir, case, seed, rep);
